@@ -3,6 +3,8 @@
 
 package gldap
 
+import "math"
+
 type controlOptions struct {
 	withGrace        int
 	withExpire       int
@@ -54,6 +56,11 @@ func WithErrorCode(code uint) Option {
 	return func(o interface{}) {
 		if o, ok := o.(*controlOptions); ok {
 			o.withErrorCode = int(code)
+			if code > math.MaxInt32 {
+				// don't let a very large code wrap around into a negative
+				// (unset) or valid looking code
+				o.withErrorCode = math.MaxInt32
+			}
 		}
 	}
 }
